@@ -268,6 +268,26 @@ int main(int argc, char** argv)
       e4.boolean("same_bytes", lback.UNSAFE_unverified() == 0x1234);
       out.put(e4);
     }
+    {
+      // ... and the tainted value obtained back is a value of its own: overwriting the opaque it
+      // came from afterwards does not change it
+      tainted<long, Sbx> lsrc = 0x2345;
+      auto lo = lsrc.to_opaque();
+      auto&& lback = from_opaque(lo);
+      lo.set_zero();
+      tr::Ev e5("opaque");
+      e5.str("ty", "long (result held by reference, opaque overwritten)").wide("in", 0x2345).wide("back", lback.UNSAFE_unverified());
+      e5.boolean("same_bytes", lback.UNSAFE_unverified() == 0x2345);
+      out.put(e5);
+      tainted<int*, Sbx> psrc = sb->UNSAFE_accept_pointer(reinterpret_cast<int*>(BASE + 64));
+      auto po = psrc.to_opaque();
+      const auto& pback = from_opaque(po);
+      po.set_zero();
+      tr::Ev e6("opaque");
+      e6.str("ty", "int* (result held by reference, opaque overwritten)").wide("in", 64).wide("back", bits_of(pback.UNSAFE_unverified()));
+      e6.boolean("same_bytes", pback.UNSAFE_unverified() == reinterpret_cast<int*>(BASE + 64));
+      out.put(e6);
+    }
 #ifndef C20_NO_OPAQUE_ARRAY
     tainted<int[4], Sbx> arr;
     for (int i = 0; i < 4; i++) {
